@@ -53,29 +53,29 @@ func TestVerif(t *testing.T) {
 var acTraceN int
 
 type acEvent struct {
-	K    string `json:"k"` // set, del, sleep, part, heal, restart, faults
-	Node int    `json:"node,omitempty"`
-	Key  string `json:"key,omitempty"`
-	MS   int    `json:"ms,omitempty"`
+	K    string   `json:"k"` // set, del, sleep, part, heal, restart, faults
+	Node int      `json:"node,omitempty"`
+	Key  string   `json:"key,omitempty"`
+	MS   int      `json:"ms,omitempty"`
 	Keys []string `json:"keys,omitempty"` // tx: keys set in one transaction
 	N    int      `json:"n,omitempty"`    // burst: number of consecutive sets
-	A    int    `json:"a,omitempty"`
-	B    int    `json:"b,omitempty"`
+	A    int      `json:"a,omitempty"`
+	B    int      `json:"b,omitempty"`
 }
 
 type acCase struct {
-	Nodes     int       `json:"nodes"`
-	Events    []acEvent `json:"events"`
-	DropPct   int       `json:"drop_pct"`
-	DupPct    int       `json:"dup_pct"`
-	DelayMS   int       `json:"delay_ms"`
-	NetSeed   int64     `json:"net_seed"`
-	Recovery  int       `json:"recovery_threshold"`
-	GossipMS  int       `json:"gossip_ms"`
+	Nodes    int       `json:"nodes"`
+	Events   []acEvent `json:"events"`
+	DropPct  int       `json:"drop_pct"`
+	DupPct   int       `json:"dup_pct"`
+	DelayMS  int       `json:"delay_ms"`
+	NetSeed  int64     `json:"net_seed"`
+	Recovery int       `json:"recovery_threshold"`
+	GossipMS int       `json:"gossip_ms"`
 	// Stall: node with an extra subscriber that never returns from its first
 	// notification (0 = none); StallFirst registers it before the other subscribers
-	Stall      int  `json:"stall,omitempty"`
-	StallFirst bool `json:"stall_first,omitempty"`
+	Stall       int  `json:"stall,omitempty"`
+	StallFirst  bool `json:"stall_first,omitempty"`
 	ShuffleMaps bool `json:"shuffle_maps,omitempty"`
 }
 
@@ -422,9 +422,26 @@ func acClassifyStall(c acCase, net *acNet, nodes []*acNode, keySet map[string]bo
 				offered = true
 			}
 		}
+		// start-up recovery pulls every operation at or above the node's high-water mark
+		// from every peer: a lagging node that came back while a peer already held the
+		// newest version, at or above its mark, was handed it then
+		recoverable := false
+		for _, x := range laggards {
+			for _, nd := range nodes[1:] {
+				if nd.id != x || len(nd.recov) == 0 {
+					continue
+				}
+				r := nd.recov[len(nd.recov)-1]
+				if r.peerHeld[key] >= vmax && vmax >= r.hw {
+					recoverable = true
+				}
+			}
+		}
 		switch {
 		case offered:
 			sig = "newest-version-was-delivered-to-the-lagging-node-but-not-applied"
+		case recoverable:
+			sig = "start-up-recovery-did-not-deliver-an-operation-at-or-above-the-high-water-mark"
 		case lh != 0 && restartedAfterWrite(lh):
 			sig, explained = "leaseholder-restarted-before-its-write-was-gossiped", true
 		default:
@@ -489,6 +506,15 @@ type acNode struct {
 	stored    map[string]bool
 	restarted bool
 	stall     chan struct{}
+	// recov: one entry per restart whose Open succeeded (start-up recovery pulled from
+	// every peer): the node's high-water mark when it came back, and for every key the
+	// newest version some running peer held at that moment
+	recov []acRecovery
+}
+
+type acRecovery struct {
+	hw       int64
+	peerHeld map[string]int64
 }
 
 func (nd *acNode) release() {
@@ -685,6 +711,30 @@ func runACBody(t *testing.T, c acCase, st *drv.Stats, prop string, failp **drv.F
 			return d, true
 		}
 		keySet := map[string]bool{}
+		// recoverySnapshot is taken just before a stopped node is opened again
+		recoverySnapshot := func(nd *acNode) acRecovery {
+			r := acRecovery{peerHeld: map[string]int64{}}
+			if it, err := nd.eng.OpenIterator(xkv.IterPrefix([]byte("--dig/"))); err == nil {
+				for it.First(); it.Valid(); it.Next() {
+					var d acDigest
+					if msgpack.Codec.Decode(ctx, it.Value(), &d) == nil && d.Version > r.hw {
+						r.hw = d.Version
+					}
+				}
+				_ = it.Close()
+			}
+			for _, p := range nodes[1:] {
+				if p == nil || p == nd || p.db == nil {
+					continue
+				}
+				for key := range keySet {
+					if d, ok := digestOf(p, key); ok && d.Version > r.peerHeld[key] {
+						r.peerHeld[key] = d.Version
+					}
+				}
+			}
+			return r
+		}
 		var trace []string
 		var netlog []string
 		defer func() {
@@ -919,10 +969,21 @@ func runACBody(t *testing.T, c acCase, st *drv.Stats, prop string, failp **drv.F
 				nd.db = nil
 				settle()
 				time.Sleep(simrt.UniqueDur(time.Duration(c.GossipMS) * time.Millisecond))
+				snap := recoverySnapshot(nd)
+				lacked := false
+				for key, v := range snap.peerHeld {
+					if d, ok := digestOf(nd, key); v >= snap.hw && (!ok || d.Version < v) {
+						lacked = true
+					}
+				}
 				if err := openNode(nd, false); err != nil {
 					// under faults the rejoin may fail to reach anyone: retried at the end
 					st.Probe("restart_open_failed_under_faults")
 					continue
+				}
+				nd.recov = append(nd.recov, snap)
+				if lacked {
+					st.Probe("restarted_node_lacked_an_operation_at_or_above_its_high_water_mark")
 				}
 				net.mu.Lock()
 				net.down[nd.id] = false
@@ -945,10 +1006,12 @@ func runACBody(t *testing.T, c acCase, st *drv.Stats, prop string, failp **drv.F
 		net.mu.Unlock()
 		for _, nd := range nodes[1:] {
 			if nd.db == nil {
+				snap := recoverySnapshot(nd)
 				if err := openNode(nd, false); err != nil {
 					fail = drv.Failf("liveness", "reopen-after-faults", "node %d cannot rejoin after faults stopped: %v", nd.id, err)
 					return
 				}
+				nd.recov = append(nd.recov, snap)
 				net.mu.Lock()
 				net.down[nd.id] = false
 				net.mu.Unlock()
@@ -1207,4 +1270,3 @@ func runACBody(t *testing.T, c acCase, st *drv.Stats, prop string, failp **drv.F
 		st.Case(drv.Hash64(strings.Join(parts, ","), strings.Join(trace, ";")), len(writes) >= 2)
 	}
 }
-
